@@ -255,9 +255,10 @@ where
         .dedup();
 
     // In a debug build, let's double-check the steps computed above
-    // with a brute-force solution.
+    // with a brute-force solution. Steps beyond max_offset are not part
+    // of the search space, so the brute-force search stops there.
     #[cfg(debug_assertions)]
-    let mut brute_force_steps = (0..)
+    let mut brute_force_steps = (0..=crate::time::Time::from(max_offset))
         .filter(|t_a| {
             workload.iter().any(|cb|
                 // Negated conditions of Lemma 19.
@@ -280,7 +281,10 @@ where
         let mut wrapped = all_steps.peekable();
         // Manually check the first point to make sure we're not calling
         // zip on an empty iterator.
-        assert_eq!(brute_force_steps.peek(), wrapped.peek());
+        assert_eq!(
+            brute_force_steps.peek(),
+            wrapped.peek().filter(|a| **a <= max_offset)
+        );
         wrapped.zip(brute_force_steps).map(|(a, bf)| {
             assert_eq!(a, bf);
             a
